@@ -35,7 +35,14 @@ POOL = {
     "method": ["leastsq", "nelder", "least_squares"],
     "method_kws": [{}, {"max_nfev": 50}, {"max_nfev": 51},
                    {"max_nfev": 50, "ftol": 1e-9}, {"xtol": 1e-9},
-                   {"ftol": 1e-9}, {"ftol": 1e-09, "xtol": 1e-9}],
+                   {"ftol": 1e-9}, {"ftol": 1e-09, "xtol": 1e-9},
+                   {"ftol": 1e-3, "xtol": 1e-9},
+                   {"xtol": 1e-3, "ftol": 1e-9},
+                   # nested dictionaries: the same keys on other levels
+                   {"options": {"maxiter": 400}, "tol": 0.5},
+                   {"options": {"maxiter": 400, "tol": 0.5}},
+                   {"options": {"maxiter": 400}},
+                   {"options": {}, "maxiter": 400}],
 }
 PARAM_EDITS = [
     ("E", "value", [500.0, 3000.0, 1.0, 1.02, 12.0, 1.5, 1.52]),
@@ -51,6 +58,10 @@ PARAM_EDITS = [
     ("nu", "value", [0.5, 0.45]),
     ("alpha", "value", [25, 20, 5]),
     ("E1", "expr", ["virtual_parameter+E", "virtual_parameter+2*E"]),
+    # constrain a parameter by an expression / release it again
+    ("R", "expr", ["1e-05", "E*0+1e-05", ""]),
+    ("nu", "expr", ["0.5", ""]),
+    ("baseline", "expr", ["0.0", "contact_point*0", ""]),
     ("virtual_parameter", "value", [10.0, 20.0]),
 ]
 
@@ -184,7 +195,7 @@ def rebuild_params(p, rng):
     q = lmfit.Parameters()
     for n, par in p.items():
         if par.expr is not None:
-            q.add(n, expr=par.expr)
+            q.add(n, expr=par.expr, min=par.min, max=par.max)
             continue
         route = rng.choice(["add", "assign", "set"])
         if route == "add":
@@ -323,10 +334,15 @@ class HashWalkEngine:
                             "options": gen_options(rng, steps) or {}})
             elif k == "model_key":
                 ops.append({"op": "model", "model": rng.choice(MODELS)})
-            elif rng.random() < 0.35:
-                ops.append({"op": "reuse_fitted"})
             else:
-                ops.append({"op": "fit"})
+                ops.append({"op": "reuse_fitted"} if rng.random() < 0.35
+                           else {"op": "fit"})
+                if rng.random() < 0.5:
+                    # a change of one parameter attribute right after a fit
+                    # (the stored hash must not survive it)
+                    name, attr, vals = rng.choice(PARAM_EDITS)
+                    ops.append({"op": "param", "name": name, "attr": attr,
+                                "value": rng.choice(vals)})
         xproc = (index % 20 == 7)
         return {"config": {"curve": cfg, "xproc": xproc}, "ops": ops}
 
@@ -350,6 +366,8 @@ class HashWalkEngine:
     def _execute(self, run):
         cfg = run["config"]["curve"]
         rng = core.random.Random(run.get("seed", 0) ^ 0x5eed)
+        seams.snapshot_globals()
+        seams.restore_globals()
         live = curves.make_curve(cfg)
         perturb = []
         log, rets = [], []
@@ -399,8 +417,15 @@ class HashWalkEngine:
                         if op["name"] not in p:
                             continue
                         q = p[op["name"]]
-                        if op["attr"] == "expr" and q.expr is None:
+                        if op["attr"] == "expr" and q.expr is None \
+                                and op["name"] == "E1":
                             continue
+                        if op["attr"] == "expr" and op["value"] == "":
+                            if q.expr is None:
+                                continue
+                            q.set(expr="", vary=False)
+                            live.fit_properties["params_initial"] = p
+                            op = dict(op, attr="_done")
                         if op["attr"] == "value" and not (
                                 q.min <= op["value"] <= q.max):
                             continue
@@ -410,8 +435,9 @@ class HashWalkEngine:
                             continue
                         if op["attr"] != "expr" and q.expr is not None:
                             continue
-                        q.set(**{op["attr"]: op["value"]})
-                        live.fit_properties["params_initial"] = p
+                        if op["attr"] != "_done":
+                            q.set(**{op["attr"]: op["value"]})
+                            live.fit_properties["params_initial"] = p
                     elif kind == "repr":
                         from nanite.fit import FP_DEFAULT
                         k = op["key"]
@@ -523,6 +549,28 @@ class HashWalkEngine:
                 break
             if "hash" not in live.fit_properties:
                 stale_ok = False
+            g = seams.changed_global()
+            if g is not None:
+                violation = viol(
+                    "H1", f"shared-defaults-modified:{g}", feats,
+                    f"the module-level table {g} was modified: the hash of "
+                    f"default settings now depends on what happened "
+                    f"earlier in this process", i)
+                break
+            # H2b: a stored hash that survived this step must still be the
+            # hash of the stored settings (every change of a setting,
+            # parameter attributes included, has to drop it)
+            if "hash" in live.fit_properties and not stale_ok and \
+                    kind in ("set", "param", "repr", "model", "pipeline"):
+                oracle_checks += 1
+                probes["H2b surviving stored hash compared"] += 1
+                if live.fit_properties["hash"] != h:
+                    violation = viol(
+                        "H2", "survived-a-change", feats,
+                        f"after this step the curve still shows the hash "
+                        f"{live.fit_properties['hash']}, the stored settings "
+                        f"hash to {h}", i)
+                    break
             if kind == "set" and op_probe is not None and not stale_ok:
                 probes["H2 stored hash compared (fit_model(**kw) route)"] += 1
                 oracle_checks += 1
